@@ -122,9 +122,10 @@ func (v *reValidator) term() bool {
 		if v.peek() == '?' {
 			v.i++
 			switch v.peek() {
-			case ':':
-			case '=', '!':
-				quantifiable = false
+			case ':', '=', '!':
+				// (?= ) and (?! ) are Assertions, which ES5 does not let a
+				// quantifier follow; every engine accepts one, so this
+				// deliberately lenient validator does too.
 			default:
 				return false
 			}
